@@ -276,6 +276,16 @@ theorem C07_configuration_refused_iff (nm : Naming) (a : Attr) (es : List Entry)
       (expand nm es = none ∨ ∃ ps, expand nm es = some ps ∧ ¬ (ps.map (·.1)).Nodup) :=
   GM.applyConfig_refused_iff nm a es
 
+/-- C06 / C07, why "survives sub-graph selection" means the WHOLE DAG's table: compound priorities recomputed over the
+    executed sub-graph rank the ready nodes differently (witness: a(0) → x(10), b(5) → c(1); an executor on {a, b} must
+    start a first — 10 against 6 — while the restricted table says 0 against 5).  An executor keeps the table of the DAG. -/
+def cpWitnessG : G := { nodes := [0, 1, 2, 3], preds := fun m => if m = 1 then [0] else if m = 3 then [2] else [] }
+def cpWitnessPrio : GM.Node → Int := fun m => if m = 1 then 10 else if m = 2 then 5 else if m = 3 then 1 else 0
+theorem C07_restricted_table_would_rank_differently :
+    cpAll cpWitnessG cpWitnessPrio 0 = 10 ∧ cpAll cpWitnessG cpWitnessPrio 2 = 6 ∧
+    cpAll (GM.induced cpWitnessG (fun x => x == 0 || x == 2)) cpWitnessPrio 0 = 0 ∧
+    cpAll (GM.induced cpWitnessG (fun x => x == 0 || x == 2)) cpWitnessPrio 2 = 5 := by decide
+
 /-- reconfiguration: the same configuration given again changes nothing more -/
 theorem C07_configuration_idempotent (nm : Naming) (a a' : Attr) (es : List Entry) (h : applyConfig nm a es = .ok a') :
     ∃ a'', applyConfig nm a' es = .ok a'' ∧ (∀ x, a''.prio x = a'.prio x ∧ a''.seq x = a'.seq x) :=
@@ -717,6 +727,20 @@ theorem C18_write_back_keeps {V : Type} [PyVal V] (w : World V) (s : XSpec) (q :
     xStart w s = some (overlay w.inst.res f0) ∧
       writeFile s (den (xCfgOf w.inst s (overlay w.inst.res f0) args)) x = some v :=
   VM.C18_write_back_keeps w s q f0 args hfrom hfile x v hx hnc harg
+
+/-- C18: what is in the file is not executed — whatever executor reads it (any selection, `cache_deps_of` targets of its own,
+    a `cache_in` of its own): a node whose result the file holds is never entered, also when it is one of that executor's
+    own `cache_deps_of` targets. -/
+theorem C18_file_entries_are_not_executed {V : Type} [PyVal V] (w : World V) (s : XSpec) (q : Nat) (f0 : File V) (args : List V)
+    (hfrom : s.fromCache = some q) (hfile : w.files q = some f0) (n : TM.Node) (v : V) (hn : f0 n = some v) :
+    xStart w s = some (overlay w.inst.res f0) ∧ n ∉ entered (xCfgOf w.inst s (overlay w.inst.res f0) args) :=
+  VM.C18_file_entries_are_not_executed w s q f0 args hfrom hfile n v hn
+
+/-- C11 / C15: a value the instance holds (a setup result, once computed) survives ANY executor run — also a restart from a
+    file written by another instance, which may hold a different value for the node (used during that one run only). -/
+theorem C11_established_value_survives_executor_runs {V : Type} [PyVal V] (w : World V) (o : XObj) (args : List V)
+    (n : TM.Node) (v : V) (h : w.inst.res n = some v) : (xRun w o args).1.inst.res n = some v :=
+  VM.xRun_keeps_established w o args n v h
 
 /-- C12 (values) / C19: restricting a table to a dependency-closed set of nodes (a target with its
     ancestors; what composed outputs need) does not change the value of any kept node. -/
